@@ -25,7 +25,7 @@ def check(ctx):
     roles = commits.stream_roles(ctx)
     sw = [roles['rows']]
     loop, var, _ = observers.single_row_loop(ctx, sw[0])
-    observers.transparent_loop(ctx, 'R12', sw[0], loop, var, effects=(roles['write'].name,), what='stream writer')
+    observers.transparent_loop(ctx, 'R12', sw[0], loop, var, effects=roles['write_names'], what='stream writer')
     n += 1
     # the write helper really writes the object and a newline
     okw, whyw = commits.one_line_per_object(ctx, roles['write'])
@@ -49,7 +49,7 @@ def check(ctx):
     steps_ = [f for f in _ps(repo) if f.module.name == 'dataflows.processors.checkpoint' and f.cls is None]
     if len(steps_) != 1:
         raise AnalysisError('checkpoint: the notifier package step was not found by role (%d candidates)' % len(steps_))
-    step = steps_[0]
+    step = ctx.N(steps_[0])       # a piece of the step moved into a sub-generator it delegates to is part of it
     gens = [g for g in ast.walk(step.node) if isinstance(g, ast.GeneratorExp)]
     ok = len(gens) == 1 and len(gens[0].generators) == 1 and not gens[0].generators[0].ifs and \
         isinstance(gens[0].elt, ast.Name) and isinstance(gens[0].generators[0].target, ast.Name) and \
@@ -102,8 +102,8 @@ def check(ctx):
     # a first-run checkpoint is transparent only if the steps before it run once: chain replacement (shared with C07)
     commits.checkpoint_replaces(ctx)
     commits.r15_descriptor_after_loop(ctx)
-    sf = commits.stream_func(ctx)
-    preds = {'WRITE_PKG': lambda x: isinstance(x, ast.Call) and isinstance(x.func, ast.Name) and x.func.id == roles['write'].name
+    sf = ctx.N(commits.stream_func(ctx), keep=tuple(roles['write_names']) + (roles['rows'].name,))
+    preds = {'WRITE_PKG': lambda x: isinstance(x, ast.Call) and isinstance(x.func, ast.Name) and x.func.id in roles['write_names']
              and x.args and any('descriptor' in u(a_) for a_ in x.args),
              'YIELD_PKG': lambda x: isinstance(x, ast.Yield) and framework._is_pkg_yield(ctx, x, sf),
              'YIELD_RES': lambda x: isinstance(x, ast.Yield) and not framework._is_pkg_yield(ctx, x, sf),
